@@ -52,7 +52,7 @@ def _max_degree(pts, w, a, b, upto):
     sc = max(1.0, abs(a), abs(b))
     for k in range(upto + 1):
         val = float(sum(wi * p ** k for wi, p in zip(w, pts)))
-        if abs(val - _moment(k, a, b)) > 1e-10 * sc ** k * (b - a):
+        if not (abs(val - _moment(k, a, b)) <= 1e-10 * sc ** k * (b - a)):
             return k - 1
     return upto
 
@@ -93,9 +93,9 @@ def _ext_case(c):
                     s0 = sum(w)
                     s1 = sum(wi * p for wi, p in zip(w, G))
                     sc = max(1.0, abs(a), abs(b))
-                    if abs(s0 - (b - a)) > 1e-11 * (b - a):
+                    if not (abs(s0 - (b - a)) <= 1e-11 * (b - a)):
                         fails.append(fail("weights_sum", "points %r: sum of weights %r, interval length %r" % (pts, s0, b - a), key))
-                    elif abs(s1 - _moment(1, a, b)) > 1e-11 * sc * (b - a):
+                    elif not (abs(s1 - _moment(1, a, b)) <= 1e-11 * sc * (b - a)):
                         fails.append(fail("linear_exactness", "points %r: integral of x %r, exact %r" % (pts, s1, _moment(1, a, b)), key))
                     if complete and sv == SliceVersion.ROMBERG_DEFAULT and cv == SliceContainerVersion.ROMBERG_DEFAULT:
                         dg = _max_degree(G, w, a, b, 2 * m_complete + 1)
@@ -120,9 +120,9 @@ def _balanced_case(c):
     sc = max(1.0, abs(a), abs(b))
     s0 = sum(w)
     s1 = sum(wi * p for wi, p in zip(w, G))
-    if abs(s0 - (b - a)) > 1e-11 * (b - a):
+    if not (abs(s0 - (b - a)) <= 1e-11 * (b - a)):
         fails.append(fail("weights_sum", "points %r: sum %r length %r" % (pts, s0, b - a), key))
-    elif abs(s1 - _moment(1, a, b)) > 1e-11 * sc * (b - a):
+    elif not (abs(s1 - _moment(1, a, b)) <= 1e-11 * sc * (b - a)):
         fails.append(fail("linear_exactness", "points %r: integral of x %r exact %r" % (pts, s1, _moment(1, a, b)), key))
     m = trees.is_complete_level(pts, a, b)
     if len(pts) == 2 ** m + 1 and m >= 1:
@@ -151,7 +151,7 @@ def _cache_case(c):
             if w_on != w_off:
                 fails.append(fail("weight_cache_transparent", "step %d grid %r: cached %r, uncached %r" % (step, pts, w_on, w_off), key))
                 break
-            if abs(sum(w_on) - (b - a)) > 1e-11 * (b - a):
+            if not (abs(sum(w_on) - (b - a)) <= 1e-11 * (b - a)):
                 fails.append(fail("weights_sum", "points %r: sum %r" % (pts, sum(w_on)), key))
                 break
     return fails, [len(seq)]
@@ -176,7 +176,7 @@ def _objreuse_case(c):
             f.set_grid(list(pts), list(lv))
             w2 = [float(x) for x in f.get_weights()]
             G2 = [float(x) for x in f.get_grid()]
-            if G1 != G2 or len(w1) != len(w2) or any(abs(x - y) > 1e-13 for x, y in zip(w1, w2)):
+            if G1 != G2 or len(w1) != len(w2) or any(not (abs(x - y) <= 1e-13) for x, y in zip(w1, w2)):
                 fails.append(fail("reused_object_weights", "variant %r step %d points %r after %r: weights %r, fresh object %r" % ((str(sg), fb), step, pts, [t[0] for t in c["sequence"][:step]], w1[:5], w2[:5]), key))
                 return fails, [step]
     return fails, [len(c["sequence"])]
@@ -203,7 +203,7 @@ def _cache2d_case(c):
                 if w_on != w_off:
                     fails.append(fail("weight_cache_transparent", "step %d dimension %d points %r: cached %r, uncached %r" % (step, k, coords[k], w_on, w_off), key))
                     return fails, [len(c["sequence"])]
-                if abs(sum(w_on) - (b[k] - a[k])) > 1e-11 * (b[k] - a[k]):
+                if not (abs(sum(w_on) - (b[k] - a[k])) <= 1e-11 * (b[k] - a[k])):
                     fails.append(fail("weights_sum", "dimension %d points %r: sum %r, length %r" % (k, coords[k], sum(w_on), b[k] - a[k]), key))
                     return fails, [len(c["sequence"])]
     return fails, [len(c["sequence"])]
